@@ -335,12 +335,16 @@ func c01cDecode(idx int, paths []schemaPath) c01cCase {
 	cs.Placement = placements[i%npl]
 	i /= npl
 	cs.OptSet = i % no
+	i /= no
+	if i%2 == 1 {
+		cs.Entry = "model"
+	}
 	return cs
 }
 
 func c01cRun(c *Ctx, r *zsimrt.Run) {
 	paths := loadSchemaPaths()
-	total := len(paths) * len(nodeKinds) * len(placements) * len(optSets)
+	total := len(paths) * len(nodeKinds) * len(placements) * len(optSets) * 2 // x entry point (project / model)
 	var cs c01cCase
 	if c.Tier == "thorough" {
 		// exhaustive enumeration, strided over the workers
@@ -363,9 +367,9 @@ func c01cRun(c *Ctx, r *zsimrt.Run) {
 		cs = c01cDecode(idx, paths)
 		cs.Placement = placements[r.Draw("placement", len(placements))]
 		cs.OptSet = r.Draw("optset", len(optSets))
-	}
-	if r.Draw("entry-model", 8) == 0 {
-		cs.Entry = "model"
+		if r.Draw("entry-model", 8) == 0 {
+			cs.Entry = "model"
+		}
 	}
 	c.Count("schema-paths", 0)
 	c.Max("schema-paths", len(paths))
